@@ -1,8 +1,10 @@
 package auth
 
 import (
+	"bytes"
 	"crypto/tls"
 	"encoding/base64"
+	"encoding/json"
 	"fmt"
 	"log"
 	"net"
@@ -297,11 +299,19 @@ func authenticateUser(deps ServerDeps, conn net.Conn, tag string, username strin
 		email = username + "@" + cfg.Domain
 	}
 
-	// Prepare JSON body
-	requestBody := fmt.Sprintf(`{"email":"%s","password":"%s"}`, email, password)
+	// Prepare JSON body (encoding/json escapes quotes, backslashes and control
+	// characters, so the auth server reads exactly this email and password)
+	requestBody, err := json.Marshal(struct {
+		Email    string `json:"email"`
+		Password string `json:"password"`
+	}{Email: email, Password: password})
+	if err != nil {
+		deps.SendResponse(conn, fmt.Sprintf("%s NO [SERVERBUG] Internal error", tag))
+		return
+	}
 
 	// Create HTTP request
-	req, err := http.NewRequest("POST", cfg.AuthServerURL, strings.NewReader(requestBody))
+	req, err := http.NewRequest("POST", cfg.AuthServerURL, bytes.NewReader(requestBody))
 	if err != nil {
 		deps.SendResponse(conn, fmt.Sprintf("%s NO [SERVERBUG] Internal error", tag))
 		return
